@@ -224,5 +224,22 @@ func provenLE(t linTerm, guards []linTerm) bool {
 			return true
 		}
 	}
+	// transitivity: the sum of two dominating guards (each <= 0) is <= 0 (j < i and i < len(s) give j < len(s))
+	if len(guards) <= 64 {
+		for i, g1 := range guards {
+			if !g1.ok {
+				continue
+			}
+			for _, g2 := range guards[i+1:] {
+				if !g2.ok {
+					continue
+				}
+				sum := g1.add(g2)
+				if sum.ok && sum.key() == t.key() && t.c <= sum.c {
+					return true
+				}
+			}
+		}
+	}
 	return false
 }
